@@ -15,7 +15,7 @@ from vmon.props.c11 import plain_item, solo_result
 
 LEVEL = "exploration"
 SHARDS = {"quick": 16, "thorough": 16}
-MUST = ["objects.listed_top-level", "roundtrip.xml_route", "roundtrip.object_route", "decode.equivalence_packets", "selfcheck.reader", "bundled.documents",
+MUST = ["objects.listed_top-level", "roundtrip.written_after_use", "roundtrip.xml_route", "roundtrip.object_route", "decode.equivalence_packets", "selfcheck.reader", "bundled.documents",
         "directed.attributes"]
 RULE = ("case = generated IR (every parameter-type kind, encoding, calibrator, criteria form, length specification, "
         "descriptions, units, abstract flags, inheritance) taken through load->write->load by both build routes; "
@@ -76,6 +76,13 @@ def roundtrip(ctx, doc, tag, route, rng, packets=8, style=("prefix", "xtce")):
         ctx.violation(f"{route}/load-or-build/{type(ld.exc).__name__}", f"could not obtain the definition: {ld.exc!r}", wit)
         return False
     D = ld.value
+    used_first = (len(fs) + len(doc.params)) % 3 == 0
+    if used_first:
+        # a definition that has been in USE (it decoded packets) before it is written is the same definition
+        import random as _random
+        for raw in gen.gen_packets(_random.Random(f"C09/used/{tag}/{route}"), doc, 6):
+            solo_result(D, raw)
+        ctx.count("roundtrip.written_after_use")
     w = monitored(definition_to_bytes, D)
     if w.exc is not None:
         why = why_write(doc) if isinstance(w.exc, (KeyError, ValueError, TypeError)) else "-"
@@ -159,6 +166,10 @@ def directed_docs():
         "Condition/ParameterInstanceRef@useCalibratedValue=false(left)": ir.PType("X_T", "float", I(8, "unsigned", False, None, (ir.ContextCal(ir.BoolExpr(ir.Condition("PKT_APID", ">=", right_value="5", left_cal=False, right_cal=False)), ir.Poly(((1.0, 1),))),))),
         "Condition/ParameterInstanceRef@useCalibratedValue=false(right)": ir.PType("X_T", "float", I(8, "unsigned", False, None, (ir.ContextCal(ir.BoolExpr(ir.Condition("PKT_APID", ">=", right_param="TYPE", left_cal=True, right_cal=False)), ir.Poly(((1.0, 1),))),))),
         "ANDed-in-ORed nesting": ir.PType("X_T", "float", I(8, "unsigned", False, None, (ir.ContextCal(ir.BoolExpr(ir.Or((ir.And((ir.Condition("PKT_APID", "==", right_value="5", right_cal=False), ir.Condition("TYPE", "==", right_value="1", right_cal=False))), ir.Condition("VERSION", "gt", right_value="2", right_cal=False)))), ir.Poly(((1.0, 1),))),))),
+        "Enumeration (64-bit values a double cannot hold)": ir.PType("X_T", "enumerated", I(64, "unsigned"), None,
+                                                                     ((2 ** 64 - 1, "MAX"), (2 ** 63 - 1, "HALF"), (2 ** 53 + 1, "ODD"), (7, "SEVEN"))),
+        "Enumeration (64-bit signed values)": ir.PType("X_T", "enumerated", I(64, "twosComplement"), None,
+                                                       ((-(2 ** 63), "MIN"), (-(2 ** 53) - 1, "NEGODD"), (2 ** 63 - 1, "MAX"))),
         "Enumeration (signed values)": ir.PType("X_T", "enumerated", I(4, "signed"), None, ((-8, "MIN"), (0, "ZERO"), (7, "MAX"))),
         "Enumeration (float encoded)": ir.PType("X_T", "enumerated", ir.FloatEnc(32), None, ((0.0, "Z"), (2.5, "TWOHALF"))),
         "UnitSet/Unit": ir.PType("X_T", "integer", I(8), "m/s^2"),
